@@ -34,6 +34,8 @@ func OpenOrWritePrivKey(le *logrus.Entry, privKeyPath string) (crypto.PrivKey, e
 			if le != nil {
 				le.Debug("wrote private key")
 			}
+		} else {
+			return nil, err
 		}
 	} else {
 		dat, err := os.ReadFile(privKeyPath)
